@@ -13,7 +13,8 @@ import Operon.Gen.MitoCaps
     arm <slot> unreg <name>                                      --   each time the slot fires (appended per line)
     body <body> @s1,s2                               -- the callable <body> uses the registration API whenever it runs:
                                                      --   the operations the slots hold NOW
-    met <mode: long|ros|forced-oxid|forced-other|auto|digest> <callee: name:<n> | notname | notcall>
+    names are opaque tokens: `<base>` or `<base>~<variant letters>` (look-alike spellings; decoded by the harness only)
+    met <mode: long|ros|forced-oxid|forced-other|auto|digest> <callee: name:<n>[=<parsed>] | notname | notcall>
         <args: 1 | 0 | n:<name>> <recorded: oxid|other> [@s1,s2]     -- slots fired by the argument expressions
     call <name> [@s1,s2]                             -- slots fired by evaluating `**call.arguments`
     callx <name> <k> [@s1,s2]                        -- SEARCH ONLY: a call object whose `name` is a property firing the
@@ -65,8 +66,15 @@ def parseRound (d : DSt) (r : String) : Round :=
 
 def metLine (d : DSt) (mode callee a recorded : String) (ops : List RegOp) : DSt × String :=
   let g := Operon.Gen.MitoCaps.guards
+  -- `name:<tok>` or `name:<tok>=<parsed>`: <parsed> is what Python's parser reads as the callee of the expression text
+  -- (identifiers are NFKC-normalised, blanks before the parenthesis dropped; `!notname` / `!notcall` when the text is
+  -- not a call of a plain name) - an environment fact computed by the harness with Python's own `ast`, not by the library
   let c : Callee := if callee = "notname" then .notName else if callee = "notcall" then .notCall
-    else .name (callee.drop 5).toString
+    else match ((callee.drop 5).toString.splitOn "=") with
+      | [_, "!notname"] => .notName
+      | [_, "!notcall"] => .notCall
+      | [_, parsed] => .name parsed
+      | _ => .name (callee.drop 5).toString
   let evalArgs : Bool := match c with
     | .name n => Operon.Gen.MitoCaps.safeNames.contains n
     | _ => false
